@@ -28,7 +28,7 @@ QUICK_MODELS = [
     ("single_3x6", "MC_Landscape_single_q.cfg"),
     ("triple_2x3", "MC_Landscape_triple_q.cfg"),
     ("pair_2x3", "MC_Landscape_pair_q.cfg"),
-    ("def_3x4", "MC_Landscape_def_q.cfg"),
+    ("def_3x3", "MC_Landscape_def_q.cfg"),
 ]
 THOROUGH_MODELS = [
     ("single_4x5", "MC_Landscape_single_t.cfg"),
@@ -36,7 +36,7 @@ THOROUGH_MODELS = [
     ("triple_2x3", "MC_Landscape_triple_t.cfg"),
     ("pair_3x4", "MC_Landscape_pair_t2.cfg"),
     ("pair_2x4", "MC_Landscape_pair_t.cfg"),
-    ("def_3x5", "MC_Landscape_def_t.cfg"),
+    ("def_3x4", "MC_Landscape_def_t.cfg"),
 ]
 
 
@@ -111,7 +111,7 @@ def main(tier):
     work = os.path.join(vf.BUILD, "land", "%s-%d" % (tier, os.getpid()))
     os.makedirs(work, exist_ok=True)
     models = QUICK_MODELS if tier == "quick" else THOROUGH_MODELS
-    results, bin_cases, bin_record = run_jobs(models, 900 if tier == "quick" else 1150)
+    results, bin_cases, bin_record = run_jobs(models, 400 if tier == "quick" else 1150)
 
     # ---- the bounded models: in-model theorems, then every case on the real code
     cases_path = os.path.join(work, "cases.ndjson")
@@ -188,7 +188,7 @@ def main(tier):
     ev.parts["replay"] = dict(summ, ops=ops, known_deviations=known_counts)
 
     # ---- recorded executions validated by the trace specification
-    nfiles, rounds = (4, 10) if tier == "quick" else (8, 40)
+    nfiles, rounds = (4, 6) if tier == "quick" else (8, 30)
     tdir = os.path.join(work, "traces")
     os.makedirs(tdir, exist_ok=True)
     paths = [os.path.join(tdir, "t%d.ndjson" % i) for i in range(nfiles)]
